@@ -9,12 +9,18 @@ def run(prog, rep, tier):
                   "READ ~a~ READ ~b~ READ op))) with identical reserved names at bind and read; S1: ALT children (so both `E?` and `(E,)`) get a scope "
                   "of their own; N3: the bison actions of `E?`, `E*`, `E+`, if-then-else interpreted on an operand of every tree kind: `E?` is exactly "
                   "ALT(E's alternatives..., NOP) i.e. `(E,)`; closures wrap SCOPE(E) and only reuse a closure directly beneath them "
-                  "((F+)* = F*, (F*)+ = F*); if-then-else is IFELSE of three SCOPEs.")
-    rep.not_decided = ("simplifier transparency, whitespace/comment placement, escape sequences vs bytes, string continuation, `if` vs its expansion, "
+                  "((F+)* = F*, (F*)+ = F*); if-then-else is IFELSE of three SCOPEs; N4/N5: the scanner is simulated - which rule of lexer.ll fires at each "
+                  "position is decided from the patterns (translated to regular expressions; flex's longest-match / earliest-rule discipline and start "
+                  "conditions), the action of that rule is interpreted from the source of yylex: N4 ~200 literals covering every documented escape in "
+                  "three contexts, raw literals, continuation and %% denote the documented bytes; N5 ~1000 layout variants of three programs covering "
+                  "every token kind give the same token sequence.")
+    rep.not_decided = ("simplifier transparency beyond U1, layout inside programs other than the sampled token sequences, `if` vs its expansion, "
                        "`?(E)` vs `([E] != [])`: these equate results of two programs for all inputs (other families).")
     apply(rep, "N1", "format directives are their documented expansions", r_lex.n1(prog), 5)
     apply(rep, "N2", "infix operators are the documented ?(let..) tree", r_lex.n2(prog), 1)
     apply(rep, "N3", "`E?`, `E*`, `E+` and if-then-else build their documented trees for every kind of operand (grammar actions interpreted from source)", r_lex.n3(prog), 4)
+    apply(rep, "N4", "string literals denote the documented bytes: named, octal, hex, end-of-line escapes, raw literals, continuation, %% (scanner simulated: rule selection from the patterns, actions interpreted)", r_lex.n4(prog), 8)
+    apply(rep, "N5", "blanks, newlines and whitespace-delimited comments of all three styles between any two tokens do not change the token sequence (scanner simulated)", r_lex.n5(prog), 4)
     import r_tables
     apply(rep, "U1", "the simplifier's erase-remove drops the whole removed tail", r_tables.u1(prog), 1)
     apply(rep, "Y2", "every %( ... %) splice of a literal is scanned from the same initial state as the directive forms", r_lex.y2(prog), 2)
